@@ -1,6 +1,7 @@
 (* C01 - property theorems.  Statements, `exact <lemma>`, Print Assumptions. *)
 From Coq Require Import String ZArith List Bool Permutation.
-From HD Require Import Base.Val C01_Model C01_Proofs C01_Proofs_Frames C01_Proofs_Lut C01_Proofs_Value C01_Proofs_Full.
+From HD Require Import Base.Val C01_Model C01_Proofs C01_Proofs_Frames C01_Proofs_Lut C01_Proofs_Value C01_Proofs_Full
+  C01_Proofs_Hist.
 Import ListNotations.
 Open Scope Z_scope.
 
@@ -245,3 +246,97 @@ Example C01_nonvacuous_valid :
   valid c2 (Label [[0;300;3]; [2;2;0]]) = false /\ valid c1 (Stack [[[1;0];[0;0];[0;2]]; []; []]) = false.
 Proof. vm_compute. repeat split; eexists; reflexivity. Qed.
 Print Assumptions C01_nonvacuous_valid.
+
+(* ------------------------------------------------------------------ *)
+(* histories and the other read entry points                            *)
+(* ------------------------------------------------------------------ *)
+(* the decoded-array cache (.pixel_array touched before): frame i cut out of the
+   WHOLE decoded PixelData is frame i, for 1-, 8- and 16-bit native data and
+   every frame size (same statement as C01_stored_frame_correct for the
+   frame-by-frame decoders) *)
+Theorem C01_cached_frame_correct : forall c (fs : list frame) meta dec i,
+  native c = true -> 1 <= npix c ->
+  (forall f, In f fs -> frame_ok c (f_pix f)) ->
+  0 <= i < zlen fs ->
+  cached_frame (Stored c meta (pixel_data c fs) dec) i
+  = f_pix (nth (Z.to_nat i) fs (Frame 0 0 [])).
+Proof. exact cached_frame_correct. Qed.
+Print Assumptions C01_cached_frame_correct.
+
+(* whatever the object (lazy reader or not) and whatever was called before (cache
+   warm or cold), get_stored_frame / get_stored_frames / .pixel_array return the
+   same frame k of a constructed object *)
+Theorem C01_frames_history_independent : forall c i perm st lazy warm k,
+  valid c i = true -> Permutation perm (zrange (nsrc c)) -> construct c i perm = Ok st ->
+  0 <= k < zlen (s_meta st) ->
+  frame_getter lazy warm st k = stored_frame false st k.
+Proof.
+  intros c i perm st lazy warm k Hv Hp Hc Hk.
+  rewrite (getter_history_independent c i perm st lazy warm k Hv Hp Hc Hk).
+  rewrite <- (getter_history_independent c i perm st lazy false k Hv Hp Hc Hk).
+  destruct lazy; [|reflexivity].
+  (* lazy reader, cold cache = eager reader, cold cache *)
+  unfold frame_getter. cbn [andb negb].
+  destruct (constructed_frames c i perm st Hv Hp Hc) as (fs & -> & Hok).
+  destruct (valid_basic c i Hv) as (_ & Hn & _).
+  cbn [s_meta] in Hk. unfold zlen in Hk. rewrite map_length in Hk.
+  destruct (native c) eqn:En.
+  - rewrite !stored_frame_correct; auto.
+  - now rewrite !stored_frame_encaps.
+Qed.
+Print Assumptions C01_frames_history_independent.
+
+(* THE PROPERTY after any history: the stacked read of all sources (by instance
+   and by frame) returns the specification from every object, cache warm or cold *)
+Theorem C01_roundtrip_any_history : forall c i perm st,
+  valid c i = true -> Permutation perm (zrange (nsrc c)) -> construct c i perm = Ok st ->
+  forall lazy warm,
+    read_g (frame_getter lazy warm st) st (zrange (nsrc c)) false false = Ok (expected c i) /\
+    read_g (frame_getter lazy warm st) st (one_to (nsrc c)) true true = Ok (expected c i).
+Proof. exact roundtrip_any_history. Qed.
+Print Assumptions C01_roundtrip_any_history.
+
+(* the combine_segments=True read - result OR refusal, any request list - does
+   not depend on the history *)
+Theorem C01_combined_history_independent : forall c i perm st lazy warm req byframe am,
+  valid c i = true -> Permutation perm (zrange (nsrc c)) -> construct c i perm = Ok st ->
+  read_combined (frame_getter lazy warm st) st req byframe am =
+  read_combined (stored_frame lazy st) st req byframe am.
+Proof. exact combined_history_independent. Qed.
+Print Assumptions C01_combined_history_independent.
+
+(* THE PROPERTY for the label-map view: if the input can be shown as one label
+   map (every stored value 0 or the top value, no pixel in two segments - always
+   the case for LABELMAP), combine_segments=True returns, for every source in the
+   order supplied, the number of the segment the input puts at each pixel *)
+Theorem C01_roundtrip_combined : forall c i perm st,
+  valid c i = true -> Permutation perm (zrange (nsrc c)) -> construct c i perm = Ok st ->
+  combinable c i = true ->
+  forall lazy warm,
+    read_combined (frame_getter lazy warm st) st (zrange (nsrc c)) false false = Ok (expected_labels c i) /\
+    read_combined (frame_getter lazy warm st) st (one_to (nsrc c)) true true = Ok (expected_labels c i).
+Proof. exact roundtrip_combined. Qed.
+Print Assumptions C01_roundtrip_combined.
+
+(* non-vacuity and the refusal branches on concrete objects: a BINARY mask of 3
+   planes x 3 pixels x 2 segments (15 bits of PixelData, frames not byte
+   aligned) is combinable and reads back as its label map with a warm cache; the
+   same mask with one pixel in both segments is refused with RuntimeError; a
+   truly fractional mask is refused with ValueError *)
+Example C01_nonvacuous_history :
+  let c1 := Cfg BINARY DInt 1 1 true [1; 2] 1 3 1 3 3 true in
+  let i1 := Stack [[[1;0];[0;0];[0;1]]; [[0;0];[0;0];[0;0]]; [[0;1];[1;0];[1;0]]] in
+  let i2 := Stack [[[1;1];[0;0];[0;1]]; [[0;0];[0;0];[0;0]]; [[0;1];[1;0];[1;0]]] in
+  let c3 := Cfg FRACTIONAL DFloat 2 3 true [1] 1 3 1 3 1 true in
+  let i3 := Stack [[[1];[2];[0]]] in
+  combinable c1 i1 = true /\ combinable c1 i2 = false /\ combinable c3 i3 = false /\
+  expected_labels c1 i1 = [[1;0;2]; [0;0;0]; [2;1;1]] /\
+  (exists st, construct c1 i1 [2;0;1] = Ok st /\
+     map (cached_frame st) (zrange 4) = [[0;1;1]; [1;0;0]; [1;0;0]; [0;0;1]] /\
+     read_combined (frame_getter false true st) st [0;1;2] false false = Ok [[1;0;2]; [0;0;0]; [2;1;1]]) /\
+  (exists st, construct c1 i2 [2;0;1] = Ok st /\
+     read_combined (frame_getter false true st) st [0;1;2] false false = Err "RuntimeError") /\
+  (exists st, construct c3 i3 [0] = Ok st /\
+     read_combined (frame_getter false true st) st [0] false false = Err "ValueError").
+Proof. vm_compute. repeat split; eexists; repeat split. Qed.
+Print Assumptions C01_nonvacuous_history.
